@@ -339,7 +339,7 @@ Theorem file_merge_step c t pord g files ev files' :
   gen_step itoa c t pord g files = (ev, inr files') ->
   let gord := accepted (gfilter g) pord in
   (exists f', find_file (gfilename g) files' = Some f' /\
-     fbody f' = match find_file (gfilename g) files with Some f => fbody f | None => [] end ++ emitted g gord /\
+     fbody f' = ended (match find_file (gfilename g) files with Some f => fbody f | None => [] end) ++ emitted g gord /\
      fheader f' = match find_file (gfilename g) files with Some f => fheader f | None => theader t end /\
      ftype f' = gfiletype g) /\
   (forall n, n <> gfilename g -> find_file n files' = find_file n files).
@@ -361,6 +361,17 @@ Proof.
     split.
     + eexists. split; [apply (find_put_same {| fname := gfilename g |})|]. simpl. auto.
     + intros n Hne. apply find_put_other. simpl. congruence.
+Qed.
+
+(* the separator: what earlier generators wrote is ended by a newline (unless nothing was written),
+   and nothing else is added to it *)
+Lemma ended_spec b : (ended b = b \/ ended b = b ++ nl) /\ (b <> [] -> exists b', ended b = b' ++ nl).
+Proof.
+  unfold ended. destruct (rev b) as [|c r] eqn:E.
+  - split; [left; reflexivity|]. intros H. exfalso. apply H. rewrite <- (rev_involutive b), E. reflexivity.
+  - destruct (N.eqb_spec c 10) as [->|Hc].
+    + split; [left; reflexivity|]. intros _. exists (rev r). rewrite <- (rev_involutive b), E. reflexivity.
+    + split; [right; reflexivity|]. intros _. exists b. reflexivity.
 Qed.
 
 (* namers are private: what a generator's hooks see is a function of the context's namers and
